@@ -17,7 +17,7 @@ RULE = (
     "function on 2 argument tuples x path-exhaustive decision tapes: same outcome and same external-call trace. Census by object identity: with "
     "prune=False every simple statement and every if/while test of the parsed function lies in exactly one block; with prune=True a missing statement is "
     "pass/break/continue or unreachable in the unpruned graph (own search), no block is empty, blocks have <= 2 targets and two-way blocks end in an "
-    "expression. Non-trivial = program has an and/or with a calling non-first operand, or a loop with else and break. Distinct = hash of the source."
+    "expression. Further legs: the same grammar driven coverage-guided by libFuzzer (atheris) through Hypothesis' fuzz_one_input; fixed template families (loops with 3-13 exits, 3-13-arm elif chains, 3-13-operand and/or chains, 3-7-deep while nests, while-True idioms) and a slice (quick) / all (thorough) of an exhaustive family of 3768 loops whose body is an if/elif/else chain over every combination of pass / continue / break / return / statement arms with every kind of tail. Both entry points are used (source text, node list); after the comparison the front-end graph is converted, restructured and regenerated and must still be what it was. Non-trivial = program has an and/or with a calling non-first operand, or a loop with else and break. Distinct = hash of the source."
 )
 ASSUME = [
     "CPython is the reference semantics; arguments from a finite pool; tapes up to the depth bound",
